@@ -169,13 +169,22 @@ def bool_term(x):
 
 
 # ----------------------------------------------------------------------------- SInt
+def _attr(x, base, name):
+    """attribute of a shadow instance without triggering foreign __getattr__ implementations"""
+    if type.__instancecheck__(base, x):
+        d = getattr(x, "__dict__", None)
+        if d is not None:
+            return d.get(name)
+    return None
+
+
 def is_sym(x):
-    return getattr(x, "_t", None) is not None
+    return _attr(x, int, "_t") is not None
 
 
 def tm(x):
     """z3 Int term of an int-like."""
-    t = getattr(x, "_t", None)
+    t = _attr(x, int, "_t")
     if t is not None:
         return t
     if isinstance(x, SBool):
@@ -237,7 +246,7 @@ class SInt(int, metaclass=_Meta):
             if isinstance(value, SBool):
                 return mk(cls if cls is not SInt else SInt, tm(value), iv(value))
             if is_sym(value) and isinstance(value, int):
-                return mk(cls, value._t, int.__index__(value), getattr(value, "_bv", None))
+                return mk(cls, value._t, int.__index__(value), _attr(value, int, "_bv"))
         if cls is SInt:
             # called as the builtin `int(...)`
             if not a and not k:
@@ -249,16 +258,16 @@ class SInt(int, metaclass=_Meta):
                         return ty.__index__(value)
                     if hasattr(ty, "__trunc__"):
                         return ty.__trunc__(value)
-                if isinstance(value, float) and getattr(value, "_ft", None) is not None:
+                if isinstance(value, float) and f_is_sym(value):
                     return value.__trunc__()
             from . import strs
 
             if strs.s_is_sym(value):
                 return strs.sym_int_parse(value, *a, **k)
             return int(value, *a, **k)
-        if isinstance(value, float) and getattr(value, "_ft", None) is not None and not a:
+        if isinstance(value, float) and f_is_sym(value) and not a:
             r = value.__trunc__()
-            return mk(cls, tm(r), iv(r), getattr(r, "_bv", None))
+            return mk(cls, tm(r), iv(r), _attr(r, int, "_bv"))
         from . import strs
 
         if strs.s_is_sym(value):
@@ -437,16 +446,16 @@ class SInt(int, metaclass=_Meta):
         if isinstance(other, SBool):
             other = mk(SInt, tm(other), iv(other))
         if isinstance(other, float) and not isinstance(other, int):
-            if is_sym(self) or getattr(other, "_ft", None) is not None:
+            if is_sym(self) or f_is_sym(other):
                 _pin_int(self, "int<->float compare")
-                if getattr(other, "_ft", None) is not None:
+                if f_is_sym(other):
                     other._pin("int<->float compare")
             return f(int.__index__(self), float.__float__(other))
         if not isinstance(other, int):
             return NotImplemented
         if not is_sym(self) and not is_sym(other):
             return f(int.__index__(self), int.__index__(other))
-        bv = getattr(self, "_bv", None)
+        bv = _attr(self, int, "_bv")
         if bv is not None and not is_sym(other) and bvf is not None:
             # truncated double: compare inside the bit-vector domain (Int<->BV mixes go `unknown`)
             w = bv.size()
@@ -484,7 +493,7 @@ class SInt(int, metaclass=_Meta):
     # -- conversions
     def __int__(s):
         if is_sym(s):
-            return mk(SInt, s._t, int.__index__(s), getattr(s, "_bv", None))
+            return mk(SInt, s._t, int.__index__(s), _attr(s, int, "_bv"))
         return int.__index__(s)
 
     def __trunc__(s):
@@ -553,7 +562,7 @@ TRUNC_BITS = 70
 
 
 def f_is_sym(x):
-    return getattr(x, "_ft", None) is not None
+    return _attr(x, float, "_ft") is not None
 
 
 def fraw(x):
@@ -561,7 +570,7 @@ def fraw(x):
 
 
 def ft(x):
-    t = getattr(x, "_ft", None)
+    t = _attr(x, float, "_ft")
     if t is not None:
         return t
     return fp_val(float.__float__(x) if isinstance(x, float) else float(int.__index__(x)))
